@@ -400,9 +400,62 @@ def targets(ctx):
         ctx.extra.setdefault("fuzz_campaigns", {})[f"varint[{ctx.shard}]"] = {"executions": execs, "crashes": len(crashes)}
         return Eval(fails, weight=max(1, execs), nontrivial_count=execs, labels=["fuzz:varint"])
 
+    # ---- load_varint / dump_varint over stream KINDS: a varint that straddles the boundary of a buffered reader's
+    # internal buffer, a stream that hands out one byte per read(), a stream that only offers read()
+    def stream_ev(case):
+        import io
+
+        vals, bs, kind = case["vals"], case["bs"], case["kind"]
+        data = b"".join(wire.enc_varint(v) for v in vals)
+        fails = []
+
+        class OneByte:
+            def __init__(self, d):
+                self.d, self.i = d, 0
+
+            def read(self, n=-1):
+                if self.i >= len(self.d):
+                    return b""
+                self.i += 1
+                return self.d[self.i - 1:self.i]  # fewer bytes than asked for is allowed for raw streams; 1 is asked for
+
+        class OnlyRead:
+            def __init__(self, d):
+                self._s = io.BytesIO(d)
+
+            def read(self, n=-1):
+                return self._s.read(n)
+
+        s = {"buffered": lambda: io.BufferedReader(io.BytesIO(data), buffer_size=bs), "one_byte": lambda: OneByte(data),
+             "only_read": lambda: OnlyRead(data), "bytesio": lambda: io.BytesIO(data)}[kind]()
+        got = []
+        try:
+            for v in vals:
+                x, raw = bp.load_varint(s)
+                got.append((x, raw))
+            want = [(v & MASK64, wire.enc_varint(v)) for v in vals]
+            if got != want:
+                bad = next(i for i, (a, b) in enumerate(zip(got, want)) if a != b)
+                fails.append(Failure("load_varint_stream", f"load_varint_stream|{kind}", f"case={case!r:.300}: value {bad}: got {got[bad]!r} want {want[bad]!r}"))
+        except Exception as e:  # noqa: BLE001
+            fails.append(Failure("load_varint_stream_raises", f"load_varint_stream_raises|{kind}|{type(e).__name__}", f"case={case!r:.300}: after {len(got)} values: {e}"))
+        straddles = False
+        pos = 0
+        for v in vals:
+            ln = len(wire.enc_varint(v))
+            if kind == "buffered" and pos // bs != (pos + ln - 1) // bs:
+                straddles = True
+            pos += ln
+        return Eval(fails, weight=len(vals), nontrivial_count=len(vals) if (straddles or kind != "buffered") else 0, labels=[f"stream:{kind}"] + (["varint_straddles_buffer_boundary"] if straddles else []))
+
+    stream_strat = st.fixed_dictionaries({
+        "vals": st.lists(st.one_of(st.integers(0, 127), st.integers(0, 127), rand_ints.filter(lambda x: x >= -(2**63))), min_size=1, max_size=40),
+        "bs": st.sampled_from([2, 3, 5, 8, 16]), "kind": st.sampled_from(["buffered", "buffered", "buffered", "one_byte", "only_read", "bytesio"])})
+
     from . import _seq
 
     return [
+        Target("varint_stream_kinds", stream_ev, strategy=stream_strat, quick=500, thorough=8000),
         Target("atheris_varint_campaign", fuzz_ev, cases=fuzz_cases, exhaustive=False, shard_cases=False, quick=10**9, thorough=10**9, time_thorough=3000),
         Target("varint_exhaustive_range", eval_range(bp), cases=range_cases, exhaustive=True,
                rule=f"every integer in [{lo}, {hi})", time_quick=300, time_thorough=1200),
